@@ -111,6 +111,11 @@ def plan(tier, seed):
         (corner("unit", prefix=XYI, qubits=3, name="xy-inplane-field"), SHORT, d),
         (corner("real", prefix=A.GG, qubits=2, name="real-two-globals", rydberg_level=100), A.render(l=None, g2="h"), d),
         (corner("unit8", prefix=A.DG, qubits=3, name="unit8-dmm-first"), A.render(l="r", dmm="dmm_0", eom=False), d),
+        # Ising mode with an SLM mask (realised by a DMM): the van der Waals term stays on whatever the mask leaves unmasked
+        (corner("unit8", prefix=[("slm", ["q0"]), ("declare", "g", "rydberg_global")], qubits=2, name="ising-slm-one-unmasked"),
+         A.render(l=None, eom=False), d + 1),
+        (corner("real", prefix=[("declare", "g", "rydberg_global"), ("declare", "r", "rydberg_local", "q0"), ("slm", ["q0", "q2"])],
+                qubits=3, name="ising-slm-two-of-three"), A.render(l="r", eom=False), d),
         # qubit ids that are integers / strings whose sorted or index order differs from the register order
         (corner("unit8", prefix=A.GR, qubits=3, qid_alias=INTPERM, name="unit8-int-ids-out-of-order"), A.render(l="r"), d),
         (corner("unit", prefix=XYT, qubits=3, qid_alias=INTPERM, name="xy-int-ids-out-of-order"), SHORT, d),
